@@ -22,6 +22,7 @@ import (
 
 	"github.com/bytedance/gopkg/lang/dirtmake"
 	"github.com/bytedance/sonic/internal/rt"
+	"github.com/bytedance/sonic/internal/verifhook"
 	"github.com/bytedance/sonic/option"
 )
 
@@ -101,6 +102,7 @@ func (self *Node) MarshalJSON() ([]byte, error) {
 	if self.isRaw() {
 		lock := self.rlock()
 		if self.isRaw() {
+			verifhook.Point(verifhook.AstRawLocked)
 			raw := self.toString()
 			if lock {
 				self.runlock()
